@@ -174,4 +174,5 @@ def harnesses(tier):
         ("simulation-result", h_simresult, sim),
         ("amplitudes-refused", h_amp_refused, [dict(kind="threshold"), dict(kind="parity")]),
         ("sampling-result", h_sampling, samp),
+        ("simulation-result.raw", h_simresult, sim[::7], dict(raw=True)),
     ]
